@@ -181,6 +181,12 @@ fn scenarios() -> Vec<Scenario> {
         let half = vec![tag; n / 2];
         Op::All(Box::leak([&half[..], b"\x1b[1m", &half[..], b"\x1b[0m\n"].concat().into_boxed_slice()))
     };
+    // one buffer made of very many tiny printable runs (a stream that batches runs must hold the lock across batches)
+    let many = |tag: u8, runs: usize| -> Op {
+        let unit = [&[tag][..], b"\x1b[1m"].concat();
+        Op::All(Box::leak([unit.repeat(runs), b"\x1b[0m\n".to_vec()].concat().into_boxed_slice()))
+    };
+    let (m1, m2) = (many(b'M', 300), many(b'N', 1100));
     let (b1, b2, b3) = (big(b'A', 70_000), big(b'B', 65_537), big(b'C', 140_000));
     let mut v = vec![];
     for (mode, mn) in [
@@ -201,6 +207,7 @@ fn scenarios() -> Vec<Scenario> {
         v.push(Scenario { chunk: usize::MAX, name: leak(format!("{mn}/2x2/controls,fmt-controls,line")), mode, threads: vec![vec![c1, f1], vec![c2, l1]], preemptions: 2, thorough_only: false });
         v.push(Scenario { chunk: usize::MAX, name: leak(format!("{mn}/2x1/big-big")), mode, threads: vec![vec![b1], vec![b2]], preemptions: 3, thorough_only: false });
         v.push(Scenario { chunk: usize::MAX, name: leak(format!("{mn}/2x2/big,fmt-line,big")), mode, threads: vec![vec![b3, f1], vec![l1, b2]], preemptions: 2, thorough_only: false });
+        v.push(Scenario { chunk: usize::MAX, name: leak(format!("{mn}/2x1/many-runs")), mode, threads: vec![vec![m1], vec![m2]], preemptions: 2, thorough_only: false });
         // the same over a sink that accepts at most 2 bytes per write call
         v.push(Scenario { chunk: 2, name: leak(format!("{mn}/short-sink/2x1/all-all")), mode, threads: vec![vec![w3], vec![w4]], preemptions: 3, thorough_only: false });
         v.push(Scenario { chunk: 2, name: leak(format!("{mn}/short-sink/2x1/fmt-lit")), mode, threads: vec![vec![f3], vec![k1]], preemptions: 2, thorough_only: false });
